@@ -135,7 +135,7 @@ class CHECK(core.Check):
     PROPERTY = "C26"
     LEAN_MODULES = ["IofloModel.Props.C26"]
     ENGINE = "server"
-    N_QUICK = 1200
+    N_QUICK = 1500
     N_THOROUGH = 30000
     N_SEARCH = 3000
     RULE = ("a case = Server or ServerTls and a history over: arrive(peer, sockname, reported address, handshake script) "
@@ -246,10 +246,10 @@ class CHECK(core.Check):
             status = "ok"
             try:
                 rig.do(op)
-            except (ValueError, TypeError, AttributeError) as ex:
-                status = "ERR " + type(ex).__name__
             except ssl.SSLError:
                 status = "ERR HandshakeError"
+            except Exception as ex:
+                status = "ERR " + type(ex).__name__
             lines.append(rig.line(status))
         return lines
 
@@ -283,7 +283,8 @@ class CHECK(core.Check):
             if op[0] in ("axes", "connects", "all"):
                 waiting = prev_ax + list(range(nsock - prev_pend, nsock))     # what this call has to process
                 wellformed = all(reported[s] == peer_of[s] and (not case["tls"] or sockname[s] == EHA) for s in waiting)
-                if status == "ERR TypeError" or (status == "ERR ValueError" and wellformed):
+                excused = {"ok", "ERR HandshakeError", "ERR AttributeError"} | (set() if wellformed else {"ERR ValueError"})
+                if status not in excused:
                     return "%s: accepting raised %s" % (what, status[4:])
                 if status == "ok" and not case["tls"]:
                     last = {}
